@@ -403,6 +403,18 @@ def run(M, rec, tier, seed, k, n):
                "dests": [{"id": "D0", "name": "D0", "node": "n3", "kind": "free"}], "falsy_nodes": ["n1", "n2"]}
         rec.count("corridors_with_falsy_interior_nodes")
         taint(M, rec, rng, dsc, g.pars(), st)
+    # scripted in every run: an on-ramp at a MERGE node, no merging term asked for (delta not given): the speed of the leaving
+    # link's first segment is the flow-weighted mean of the ENTERING LINKS' speeds - the ramp's queue, demand and rate stay out
+    for i_, (okind, eq) in enumerate((("ramp", "in"), ("ramp", "out"), ("simple", "limited"), ("simple", "unlimited"))):
+        lk_ = lambda j, up, dn: {"id": f"L{j}", "name": f"L{j}", "up": up, "down": dn, "N": rng.choice((1, 2, 3)), "lam": rng.choice((1, 2, 3)), "L": 1.0, "rho_max": 180.0,  # noqa: E731
+                                 "rho_crit": 33.5, "v_free": 102.0, "a": 1.867, "beta": 1.0, "vsl": None, "alpha": None}
+        dsc = {"nodes": ["s0", "s1", "m", "t"], "links": [lk_(0, "s0", "m"), lk_(1, "s1", "m"), lk_(2, "m", "t")],
+               "origins": [{"id": "O0", "name": "O0", "node": "s0", "kind": "main", "C": None, "eq": None}, {"id": "O1", "name": "O1", "node": "s1", "kind": "ideal", "C": None, "eq": None},
+                           {"id": "R", "name": "R", "node": "m", "kind": okind, "C": 2000.0, "eq": eq}],
+               "dests": [{"id": "D0", "name": "D0", "node": "t", "kind": "free"}]}
+        rec.count("merge_nodes_with_an_on_ramp")
+        taint(M, rec, rng, dsc, dict(g.pars(), delta=None), ("SX", "MX")[i_ % 2])
+        perturb_numpy(M, rec, rng, g, dsc, dict(g.pars(), delta=None), 2)
     for it in range(90 if tier == "quick" else 700):
         shape = next(sh)
         desc = g.all_kinds_network() if it % 6 == 0 else g.network(shape)[1]
